@@ -9,6 +9,7 @@ import (
 	"runtime"
 	"strconv"
 	"strings"
+	"sync/atomic"
 	"testing"
 	"time"
 
@@ -37,6 +38,34 @@ type rig struct {
 	injectAt int64 // 0 = never
 	hostFail int   // i-th host call panics (0 = never)
 	limit    int64 // counting stops the run after this many polls (harness budget)
+	progress int64 // polls seen so far, read by the watchdog goroutine
+}
+
+// wedged is returned by watched when a run neither finished nor reached a polling point for stallLimit.
+const stallLimit = 40 * time.Second
+
+// watched runs fn on its own goroutine and watches the poll counter: a run that is still going but has
+// not reached a polling point for stallLimit has stopped polling — the wedge that C18 forbids. (Slow but
+// polling runs are never mistaken for it, whatever the machine load.)
+func (r *rig) watched(fn func() harness.RunResult) (harness.RunResult, bool) {
+	done := make(chan harness.RunResult, 1)
+	go func() { done <- fn() }()
+	last := atomic.LoadInt64(&r.progress)
+	stalled := time.Duration(0)
+	tick := time.NewTicker(500 * time.Millisecond)
+	defer tick.Stop()
+	for {
+		select {
+		case res := <-done:
+			return res, false
+		case <-tick.C:
+			if now := atomic.LoadInt64(&r.progress); now != last {
+				last, stalled = now, 0
+			} else if stalled += 500 * time.Millisecond; stalled >= stallLimit {
+				return harness.RunResult{}, true
+			}
+		}
+	}
 }
 
 type hostPanic struct{ I int }
@@ -58,6 +87,9 @@ func newRig() *rig {
 		}
 		return otto.UndefinedValue()
 	})
+	if _, err := r.vm.Run("function __battery() { return " + battery + " }"); err != nil {
+		panic(err)
+	}
 	r.vm.Interrupt = make(chan func(), 1)
 	r.vm.Interrupt <- r.fire
 	return r
@@ -65,6 +97,7 @@ func newRig() *rig {
 
 func (r *rig) fire() {
 	r.polls++
+	atomic.AddInt64(&r.progress, 1)
 	r.lenAt = append(r.lenAt, len(r.trace))
 	select {
 	case r.vm.Interrupt <- r.fire:
@@ -114,6 +147,15 @@ func (r *rig) postConditions(wantHostCalls int) string {
 	default:
 	}
 	r.vm.Interrupt <- r.fire
+	// first through Otto.Call and Value.Call (entry points that do not pass through Run), then through Run
+	if res := harness.Guard(func() (otto.Value, error) { return r.vm.Call("__battery", nil) }); res.Panicked || res.Err != nil || res.Value.String() != batteryWant {
+		return fmt.Sprintf("follow-up battery called through Otto.Call right after the exit gave %s, want %s", res.Describe(), batteryWant)
+	}
+	if fn, err := r.vm.Get("__battery"); err == nil {
+		if res := harness.Guard(func() (otto.Value, error) { return fn.Call(otto.UndefinedValue()) }); res.Panicked || res.Err != nil || res.Value.String() != batteryWant {
+			return fmt.Sprintf("follow-up battery called through Value.Call gave %s, want %s", res.Describe(), batteryWant)
+		}
+	}
 	res := harness.Run(r.vm, battery)
 	if res.Panicked || res.Err != nil || res.Value.String() != batteryWant {
 		return fmt.Sprintf("follow-up battery on the same runtime gave %s, want %s", res.Describe(), batteryWant)
@@ -161,7 +203,7 @@ func witnessInterruptInTry() (bool, string) {
 
 // submit runs the program through the chosen public entry point. For call / value-call the program
 // becomes the body of a function that is defined first (with the interrupt function disarmed).
-func (r *rig) submit(entry, src string) harness.RunResult {
+func (r *rig) submitRaw(entry, src string) harness.RunResult {
 	switch entry {
 	case "eval":
 		return harness.Guard(func() (otto.Value, error) { return r.vm.Eval(src) })
@@ -183,10 +225,33 @@ func (r *rig) submit(entry, src string) harness.RunResult {
 	return harness.Run(r.vm, src)
 }
 
+// submit is submitRaw under the polling watchdog; wedged = the run stopped reaching polling points.
+func (r *rig) submit(entry, src string) (harness.RunResult, bool) {
+	return r.watched(func() harness.RunResult { return r.submitRaw(entry, src) })
+}
+
+// assigned in init() (a facet cannot refer to itself in its own initialiser)
+var (
+	fatalInject   func(c injectCase, msg string)
+	fatalAbnormal func(c abnormalCase, msg string)
+	fatalPoll     func(c pollCase, msg string)
+)
+
+func init() {
+	fatalInject = func(c injectCase, msg string) { injectFacet.Fatal(c, msg) }
+	fatalAbnormal = func(c abnormalCase, msg string) { abnormalFacet.Fatal(c, msg) }
+	fatalPoll = func(c pollCase, msg string) { pollFacet.Fatal(c, msg) }
+}
+
+const wedgeMsg = "the run went on for 40 s without reaching a single interrupt polling point (an interrupt can not be delivered: unbounded progress between polls)"
+
 func checkInject(c injectCase) harness.Outcome {
 	out := harness.Outcome{Classes: []string{"family:" + c.Family, "entry:" + c.Entry}}
 	ref := newRig()
-	refRes := ref.submit(c.Entry, c.Src)
+	refRes, wedged := ref.submit(c.Entry, c.Src)
+	if wedged {
+		fatalInject(c, wedgeMsg+"\n"+c.Src)
+	}
 	nonTerminating := refRes.Budget
 	if refRes.Panicked && !refRes.Budget {
 		out.Fail = fmt.Sprintf("reference run (no injection) panicked: %v\n%s", refRes.Panic, c.Src)
@@ -231,7 +296,10 @@ func checkInject(c injectCase) harness.Outcome {
 	for _, k := range ks {
 		r := newRig()
 		r.injectAt = k
-		res := r.submit(c.Entry, c.Src)
+		res, wedged := r.submit(c.Entry, c.Src)
+		if wedged {
+			fatalInject(c, fmt.Sprintf("with an interrupt injected at step %d: %s\n%s", k, wedgeMsg, c.Src))
+		}
 		unwound := false
 		if res.Panicked {
 			if s, ok := res.Panic.(sentinel); ok && s.K == k {
@@ -372,7 +440,10 @@ var abnormalFacet = harness.Register(&harness.Facet[abnormalCase]{
 		r := newRig()
 		r.limit = 3000
 		r.hostFail = c.Fail
-		res := harness.Run(r.vm, c.Src)
+		res, wedged := r.submit("run", c.Src)
+		if wedged {
+			fatalAbnormal(c, wedgeMsg+"\n"+c.Src)
+		}
 		switch {
 		case res.Budget:
 			out.Classes = append(out.Classes, "exit:harness-budget")
@@ -593,7 +664,10 @@ var loopForms = map[string]string{
 func pollsOf(src string) (int64, string) {
 	r := newRig()
 	r.limit = 1 << 40
-	res := harness.Run(r.vm, src)
+	res, wedged := r.submit("run", src)
+	if wedged {
+		return 0, "wedged"
+	}
 	if res.Panicked || res.Err != nil {
 		return 0, res.Describe()
 	}
